@@ -186,11 +186,10 @@ pub fn tke_handler(a: &[&str]) -> String {
     with_oracle(r, verdict)
 }
 
-/// The converse direction is claimed for payloads that encode and round-trip: Simple not 24..=31,
-/// F16 payloads exactly representable in half precision.
+/// The converse direction is claimed for payloads that round-trip by value: F16 payloads exactly
+/// representable in half precision (Simple(24..=31) included: written as f8 xx, read back as the same token).
 fn tokens_ok(ts: &[Token]) -> bool {
     ts.iter().all(|t| match t {
-        Token::Simple(n) => !(24 ..= 31).contains(n),
         Token::F16(x) => half::f16::from_f32(*x).to_f32().to_bits() == x.to_bits(),
         _ => true
     })
